@@ -163,7 +163,7 @@ CLAIMS = {
         note='Props/C16b proves maximum-spanning-tree optimality of the Prim growth (exchange argument) and pairs-once for '
              'every regular vine the model can build; the sound checker and a Kruskal weight comparison still run on every real '
              'vine; NaN behaviour of argmax/sorted not modelled',
-        tech='Lean 4 proof over a hand-written vine-construction model with refinement acceptors + structural correspondence',
+        tech='Lean 4 proof over a hand-written vine-construction model with refinement acceptors + the construction logic of tree.py/vine.py regenerated from the source by gen_vinebuild and proved equal to the model (Lemmas/VineBuildGen, Props/C16c; ties tv:VineBuild) + structural correspondence',
         ref='5 C16'),
     'C20': dict(
         text='Lean 4 theorem (core Lean): for EVERY program of the write-effect IR, if the checker noParamWrite accepts it then '
